@@ -204,6 +204,17 @@ func runPub(c *h.Ctx, r *h.Report) {
 					id = ""
 				}
 				x.acc = append(x.acc, u.ID)
+				// what is dispatched is what was posted in the body and checked against the claim — not more
+				posted := map[string]bool{}
+				for _, t := range topics {
+					posted[t] = true
+				}
+				for _, t := range u.Topics {
+					if !posted[t] {
+						r.Violate(h.Violation{Key: "C02:dispatched-update-carries-a-topic-that-was-not-authorised",
+							What: fmt.Sprintf("the update dispatched for a publish of body topics %q (URL query %q) carries topic %q, which was never matched against the publish claim", topics, cs.RawQuery, t), Replay: map[string]any{"family": "pub", "case": cs}})
+					}
+				}
 				impl = fmt.Sprintf("200 id=%s topics=%s priv=%s retry=%d type=%s data=%s", h.Hex(id), h.HexList(sortedCopy(u.Topics, topics)), h.B(u.Private), u.Retry, h.Hex(u.Type), h.Hex(u.Data))
 			}
 		} else {
